@@ -91,6 +91,14 @@ def step2 (st : St) : Event → St
 
 def run2 (st : St) (es : List Event) : St := es.foldl step2 st
 
+/-- the broker-side consumer of the published state (`coordinator/broker` stateManager.GetQueryableReplicas):
+every ONLINE shard of the database is sent to `liveNodes[shardState.Leader]` — a map read that yields the
+zero node when the leader is not a key of the published live nodes (`none` here) -/
+def queryTargets (st : St) (db : Nat) : Option (List (Nat × Option Nat)) :=
+  (Map.lookup st.shards db).map (fun ss =>
+    (ss.filter (fun e => e.2.state = stOnline)).map (fun e =>
+      (e.1, if 0 ≤ e.2.leader ∧ st.live.contains e.2.leader.toNat then some e.2.leader.toNat else none)))
+
 /-! Variants that are NOT the code: what two realistic slips would compute (kept to show that the
 theorems distinguish them — see the `example`s in Props/C18.lean). -/
 
